@@ -2,6 +2,7 @@ SPECIFICATION GSpec
 CONSTANTS NB = 2
           NID = 1
           Wide = FALSE
+          Inners = {"plain"}
           MaxBatch = 2
           D = 3
           E = 3
